@@ -35,6 +35,7 @@ func runC08(c *Ctx) {
 	if es := c.P.LangFunc("(*Evaluator).evalStatement"); es != nil {
 		c.shared("R10", "C07/R1", "a return inside a loop ends the call with that value: every loop consumes break and continue only and passes every other outcome of its body (the return signal included) on unchanged", keyHas("loop-bod"), func(s *Ctx) { c07LoopConsumption(s, es) })
 	}
+	c.shared("R12", "C10/R6", "a finished call or match leaves nothing behind: evaluation writes only the documented interpreter state (frames, return slot, roots); nothing is kept in other evaluator fields or in the nodes of the syntax tree", keyHas("evaluator-state", "syntax-tree-store", "interpreter-state"), func(s *Ctx) { interpreterState(s, "R6") })
 	c.shared("R11", "C19/R3", "a finished match leaves nothing behind: the bindings of a case are stored into a frame pushed for that match (never into the enclosing frame, where they would overwrite and then delete a variable of the same name)", keyHas("bindings-before-body", "body-in-"), runC19)
 	c.shared("R8", "C19/R4", "names bound by a match pattern are those of the alternative that matched: the binding map is made per alternative, so a name bound by a failed alternative neither shadows nor overwrites an outer variable", keyHas("bindings-per-alternative"), runC19)
 	c.shared("R7", "C09/R3", "arguments are passed by value: the copy of a null argument is a plain null without the link to the object it was read from (through which an assignment to the parameter would create a member in the caller's object)", keyHas("copy Value", "copy-on-insert ExprCall.Args", "copy-flag-"), c09R3)
